@@ -24,8 +24,8 @@ RULE = (
     "(single probe + out-of-range filler patch; every ordered pair of alphabet values "
     "in patches 0/1; the whole alphabet at once); the redshift alphabet holds each edge, "
     "its two float neighbours, bin centres and far-outside values; generated equal-width binnings (np.linspace edges: 9 bins on "
-    "[0.1,1], 30 bins on [0.01,3]) with single probes and the whole alphabet; the whole alphabet also with the consumers "
-    "running on a 2-worker virtual pool (binning pickled to the workers). Non-trivial: a "
+    "[0.1,1], 30 bins on [0.01,3], 300 bins on [0.05,3.05]) with single probes and the whole alphabet; the whole alphabet also with the consumers "
+    "running on a 2-worker virtual pool (binning pickled to the workers); after all consumers the histogram for the other closed side (trees of this side are cached). Non-trivial: a "
     "redshift on or 1 ulp from an edge, or a patch/bin without in-range object. "
     "Distinct: canonical JSON of the case."
 )
@@ -39,11 +39,11 @@ EDGE_SETS = {
     "thorough": [[0.1, 0.3], [0.1, 0.2, 0.4], [0.1, 0.2, 0.3, 0.4], [0.25, 0.5, 1.0, 1.75],
                  [0.01, 0.02, 0.05]],
 }
-PRIMES = [q for q in range(2, 1200) if all(q % r for r in range(2, int(q ** 0.5) + 1))]
+PRIMES = [q for q in range(2, 30000) if all(q % r for r in range(2, int(q ** 0.5) + 1))]
 # equal-width binnings as the configuration generates them (np.linspace): edges are not multiples of the width
 LINEAR_SETS = {
-    "quick": [(0.1, 1.0, 9), (0.01, 3.0, 30)],
-    "thorough": [(0.1, 1.0, 9), (0.01, 3.0, 30), (0.0, 1.0, 10), (0.07, 1.3, 7), (0.2, 2.3, 21)],
+    "quick": [(0.1, 1.0, 9), (0.01, 3.0, 30), (0.05, 3.05, 300)],
+    "thorough": [(0.1, 1.0, 9), (0.01, 3.0, 30), (0.05, 3.05, 300), (0.0, 1.0, 10), (0.07, 1.3, 7), (0.2, 2.3, 21), (0.0, 6.0, 600)],
 }
 
 
@@ -88,7 +88,7 @@ def cases(tier, seed):
             for weighted in (False, True):
                 base = dict(edges=edges, closed=closed, weighted=weighted, linear=[zmin, zmax, nb])
                 for z in alpha:
-                    if weighted and tier == "quick":
+                    if (weighted and tier == "quick") or nb >= 300:
                         break
                     out.append(dict(base, layout="single", z=[z, below], pid=[0, 1]))
                 out.append(dict(base, layout="full", z=alpha, pid=[i % 2 for i in range(len(alpha))]))
@@ -224,6 +224,21 @@ def run_case(case):
     check("autocorrelate", auto)
     check("crosscorrelate", cross)
     check("histogram", hist)
+
+    def hist_other_side():
+        # the trees cached on disk belong to `closed`; a histogram for the other side must follow its own rule
+        other = "left" if closed == "right" else "right"
+        conf2 = yaw.Configuration.create(rmin=0.001, rmax=1.0, unit="deg", edges=edges.tolist(), closed=other)
+        tot = np.zeros(nbins)
+        for i in range(n):
+            b = ref.ref_bin(z[i], edges, other)
+            if b >= 0:
+                tot[b] += w[i] if w is not None else 1.0
+        h = yaw.HistData.from_catalog(cat, conf2)
+        return [("data", h.data, tot)]
+
+    if "W" not in case:
+        check("histogram-other-side-after-trees", hist_other_side)
 
     res = dict(nontrivial=bool(near_edge or empty_patch), key=case,
                outcomes=[runner.digest([exp_cnt.tolist(), exp_w.tolist()])])
